@@ -37,6 +37,13 @@ func uncompressReaderData(compression string, in io.ReadCloser, estsize int64) (
 		}
 		tlog = dvid.NewTimeLog()
 		uncompressed := make([]byte, estsize)
+		// The lz4 binding does not return the number of bytes it decoded, so a payload that
+		// decodes to fewer bytes than expected would leave the rest of the buffer as zeros.
+		// Decoding fails when the destination is too small, so a payload that can be decoded
+		// into one byte less than expected is short.
+		if estsize > 1 && lz4.Uncompress(data, uncompressed[:estsize-1]) == nil {
+			return nil, fmt.Errorf("LZ4 data uncompresses to fewer than the expected %d bytes", estsize)
+		}
 		if err = lz4.Uncompress(data, uncompressed); err != nil {
 			return nil, err
 		}
